@@ -3022,7 +3022,18 @@ static void build_stmt(WorkList *list, ScopeStack *scopes, ASTNode *stmt, int in
             else {
                 /* Regular types (int, float, string, bool, etc.) */
                 const char *c_type = type_to_c(stmt->as.let.var_type);
-                emit_formatted(list, "%s %s", c_type, stmt->as.let.name);
+                /* A let that shadows a visible variable may mention that variable in its initialiser
+                 * (let x: int = (+ x 1)).  In C the new name is already in scope inside its own
+                 * initialiser, so the value is computed into a temporary first. */
+                bool shadows = stmt->as.let.value && env_get_var(env, stmt->as.let.name) != NULL;
+                static int shadow_init_counter = 0;
+                int shadow_init_id = 0;
+                if (shadows) {
+                    shadow_init_id = ++shadow_init_counter;
+                    emit_formatted(list, "%s nl_shadow_init_%d", c_type, shadow_init_id);
+                } else {
+                    emit_formatted(list, "%s %s", c_type, stmt->as.let.name);
+                }
 
                 if (stmt->as.let.value) {
                     /* Propagate element type from let to empty array literals */
@@ -3037,6 +3048,10 @@ static void build_stmt(WorkList *list, ScopeStack *scopes, ASTNode *stmt, int in
                     build_expr(list, stmt->as.let.value, env);
                 }
                 emit_literal(list, ";\n");
+                if (shadows) {
+                    emit_indent_item(list, indent);
+                    emit_formatted(list, "%s %s = nl_shadow_init_%d;\n", c_type, stmt->as.let.name, shadow_init_id);
+                }
             }
             
             /* Register in environment */
